@@ -601,6 +601,27 @@ theorem get_measurements_spec {β κ : Type} (same : κ → κ → Bool) (cast32
       .ok ((items.filter (fun it => nameMatches same name it.1)).map (fun it => it.2.map (Option.map cast32))) :=
   getMeasurements_spec same cast32 items n hn name
 
+/-- **the value array of `get_measurements`** (`np.vstack(values).T`): `n` rows — also when no item matches, `np.empty((n, 0))` —
+and the entry in row `i`, column `j` is the value given for annotation `i` to the `j`-th item whose name matches (after the cast
+to single precision), NaN exactly where it was NaN (`Model/Ann.lean` `measMatrix`, tied by the stream `getMeasurementMatrix`) -/
+theorem measurement_matrix {β κ : Type} (same : κ → κ → Bool) (cast32 : β → β) (items : List (κ × List (Option β))) (n : Nat)
+    (hn : ∀ it ∈ items, it.2.length = n) (name : Option κ) :
+    ∃ M, getMeasurementMatrix same (items.map (fun it => (it.1, encodeMeas cast32 it.2))) n name = .ok M ∧ M.length = n ∧
+      ∀ i, i < n → M[i]? = some ((items.filter (fun it => nameMatches same name it.1)).map
+        (fun it => ((it.2[i]?).join).map cast32)) := by
+  refine ⟨measMatrix n ((items.filter (fun it => nameMatches same name it.1)).map (fun it => it.2.map (Option.map cast32))), ?_, ?_, ?_⟩
+  · simp only [getMeasurementMatrix, get_measurements_spec same cast32 items n hn name]
+  · simp [measMatrix]
+  · intro i hi
+    simp only [measMatrix, List.getElem?_map, List.getElem?_range hi, Option.map_some, List.map_map]
+    congr 1
+    apply List.map_congr_left
+    intro it _
+    simp only [Function.comp, List.getElem?_map]
+    cases it.2[i]? with
+    | none => rfl
+    | some x => cases x <;> rfl
+
 /-! ## group lookup -/
 
 /-- **`get_annotation_groups` returns exactly the groups matching every given criterion, in order**
